@@ -60,6 +60,8 @@ CFG = {
         "Swat4.C12.live_step_executes",
         "Swat4.C12.fed_init",
         "Swat4.C12.popMany_fed_witness",
+        "Swat4.C12.never_queued_explicit_sys",
+        "Swat4.C12.ready_past_expiry_only_implicit",
     ],
     "shards": (4, 16),
     "nontrivial": _nontrivial,
@@ -88,6 +90,8 @@ CFG = {
                 "(C10 invariant at every reachable state), conservation_final / timing_final (same in the state after the driver's completion "
                 "phase), never_queued, enqueue_one_batch, enqueue_uses_fresh, pop_nonpositive. The clause 'a probe whose ready time is not earlier than its expiry is never queued' "
                 "is FALSE of model and code for an implicit ready time: never_queued_explicit (the call issues no command IFF both bounds are explicit and after >= before), "
+                "never_queued_explicit_sys / ready_past_expiry_only_implicit (every interleaving: each accepted enqueue record is attributed to its producing call enqueue probe after expires, and an explicit after is the record's ready time and strictly before an explicit expiry; "
+                "hence a queued probe with ready >= expiry can only stem from an implicit ready time), "
                 "implicit_ready_always_queued / implicit_ready_past_expiry_is_queued (enqueue p none (some b) is queued whatever the clock, e.g. clock 100 >= b 50: checked witness; probes.go tests "
                 "!after.IsZero() first and reads clock.Now() afterwards), implicit_ready_past_expiry_never_delivered (ready > expiry: every pop record of that id is counted expired, "
                 "handed to nobody; from not_early + not_late, monotone clock), ready_eq_expiry_only_at_instant / ready_eq_expiry_delivered_witness (ready = expiry: queued AND delivered, "
